@@ -36,6 +36,28 @@ def svd_mode_rule(chk, src, rule="svd-mode"):
     return sites
 
 
+
+def variational_operand_rule(chk, src):
+    """variational_compress builds its initial guess from *copies* of the operator and the state: the sweeps that follow contract with the untouched operands"""
+    fi = src.func(MP, "MatrixProduct.variational_compress")
+    ps = fi.params()      # self, mpo, guess
+    for operand, label in ((ps[1], "operator"), ("self", "state")):
+        chains = []
+        for st in ast.walk(fi.node):
+            if isinstance(st, ast.Assign) and isinstance(st.value, ast.Call):
+                # walk down the method chain to its root
+                names, cur = [], st.value
+                while isinstance(cur, ast.Call) and isinstance(cur.func, ast.Attribute):
+                    names.append(cur.func.attr)
+                    cur = cur.func.value
+                if isinstance(cur, ast.Name) and cur.id == operand and any(n in ("canonicalise", "compress") for n in names):
+                    chains.append(list(reversed(names)))
+        ok = bool(chains) and all(c[0] == "copy" for c in chains)
+        chk.ob("variational-operand", f"initial guess: the {label} is canonicalised / compressed on a copy", ok, fi.where, chains, [["copy", "canonicalise", "compress"]], line=fi.node.lineno,
+               detail=f"variational_compress truncates the {label} to the guess bond dimension while building its initial guess; done in place, the sweeps converge to (truncated operand) and "
+                      "the caller's object stays truncated - invisible while the operand's bond dimension is below the guess limit")
+
+
 def run(chk):
     src = chk.src
     chk.explanation = (
@@ -47,6 +69,8 @@ def run(chk):
         "(5) tree: push_cano_* = decompose then merge on the same node/child. Not decided: that the represented object is preserved and "
         "that tensors are isometries up to rounding (numerical).")
     chk.assumptions = ["scipy qr/rq/svd in economic mode return min(m, n) vectors", "svd_qn passes full_matrices through to them (read in svd_qn.py)"]
+    chk.rule("variational-operand", "variational compression leaves its operands intact", 2)
+    variational_operand_rule(chk, src)
     chk.rule("direction", "sweep site lists and the direction switch (abstract run on a 5-site chain)", 2)
     from .mini_specs import direction_bookkeeping
     direction_bookkeeping(chk, src, "direction")
